@@ -19,9 +19,9 @@ DATES = {
     's': ['2020-01-01T00:00:%02d' % i for i in range(10)],
 }
 NAMES = [None, 'nm', {'t': ['x', 'y']}]
-FLAT_CLASSES = [('IndexGO', 6), ('auto', 3), ('IndexDateGO', 1.5), ('IndexYearMonthGO', 0.7),
+FLAT_CLASSES = [('IndexGO', 6), ('auto', 3), ('auto_static', 1.5), ('IndexDateGO', 1.5), ('IndexYearMonthGO', 0.7),
                 ('IndexYearGO', 0.7), ('IndexSecondGO', 0.5), ('Index', 0.7), ('IndexDate', 0.3)]
-IX_DERIVES = ['copy', 'deepcopy', 'pickle', 'static', 'go', 'rename', 'relabel', 'roll', 'sort', 'iloc_sel',
+IX_DERIVES = ['copy', 'deepcopy', 'pickle', 'static', 'go', 'rename', 'relabel', 'roll', 'sort', 'iloc_sel', 'iloc_slice', 'iloc_slice', 'iloc_mask',
               'loc_sel', 'drop_iloc', 'head', 'tail', 'union', 'intersection', 'difference', 'astype',
               'level_add', 'copy_copy', 'to_series_index', 'frame_columns', 'values_ctor']
 
@@ -51,10 +51,10 @@ class IndexOps:
         cls = ch.weighted(FLAT_CLASSES)
         n = ch.randint(0, 5)
         op = {'op': 'new_ix', 'out': self.next_h, 'name': ch.choice(NAMES), 'route': ch.choice(['list', 'gen', 'array', 'tuple'])}
-        if cls == 'auto':
-            op['cls'] = 'IndexGO'
+        if cls in ('auto', 'auto_static'):
+            op['cls'] = 'IndexGO' if cls == 'auto' else 'Index'
             op['auto'] = True
-            op['labels'] = list(range(n))
+            op['labels'] = list(range(n if cls == 'auto' else ch.randint(0, 9)))
             return op
         op['cls'] = cls
         u = DATE_UNITS.get(cls)
@@ -163,6 +163,10 @@ class IndexOps:
             op['pos'] = sorted(ch.sample(range(n), ch.randint(0, n))) if n else []
         elif how == 'loc_sel':
             op['pos'] = ch.sample(range(n), ch.randint(0, n)) if n else []
+        elif how == 'iloc_slice':
+            op['sl'] = [ch.choice([None, 0, 0, 1, 2]), ch.choice([None, None, n, max(n - 1, 0), 3]), ch.choice([None, 1, 2, 2, 3, -1, -2])]
+        elif how == 'iloc_mask':
+            op['mask'] = [ch.chance(0.5) for _ in range(n)]
         elif how == 'drop_iloc':
             op['pos'] = ch.randint(0, n - 1) if n else 0
         elif how in ('union', 'intersection', 'difference'):
@@ -193,7 +197,11 @@ class IndexOps:
         if op.get('auto'):
             if labels != list(range(len(labels))):
                 return 'skip'
-            st, r = call(lambda: sf.IndexGO(np.arange(len(labels)), loc_is_iloc=True, name=name))
+            if cls == 'Index':
+                # the default (auto-integer, map-less) index of a Series, as every user gets it
+                st, r = call(lambda: sf.Series(np.arange(len(labels)) * 2).index.rename(name))
+            else:
+                st, r = call(lambda: sf.IndexGO(np.arange(len(labels)), loc_is_iloc=True, name=name))
         else:
             if route == 'gen':
                 arg = (x for x in labels)
@@ -455,6 +463,10 @@ class IndexOps:
                 return obj.iloc[[p for p in op.get('pos', []) if p < n]]
             if how == 'loc_sel':
                 return obj.loc[[m.raw[p] for p in op.get('pos', []) if p < n]]
+            if how == 'iloc_slice':
+                return obj.iloc[slice(*op.get('sl', [None, None, None]))]
+            if how == 'iloc_mask':
+                return obj.iloc[np.array((list(op.get('mask', [])) + [False] * n)[:n], dtype=bool)]
             if how == 'drop_iloc':
                 return obj.drop.iloc[op.get('pos', 0)]
             if how == 'head':
